@@ -152,6 +152,71 @@ pub fn dump<'tcx>(tcx: TyCtxt<'tcx>, tag: &str) -> String {
             _ => {}
         }
     }
+    // ---- automatic probes: every local generic ADT with a local Opaquable impl is instantiated with the handle
+    // types aliased in `probes::auto_handles` (AH_*) and the context aliased as AC_*; nothing is named by the corpus.
+    {
+        let mut handles: Vec<(String, Ty<'tcx>)> = vec![];
+        let mut ctxs: Vec<(String, Ty<'tcx>)> = vec![];
+        for ldid in items.definitions() {
+            let did = ldid.to_def_id();
+            if tcx.def_kind(did) == DefKind::TyAlias {
+                let p = path_s(tcx, did);
+                if p.contains("probes::auto_handles::") {
+                    let name = tcx.item_name(did).to_string();
+                    let ty = tcx.type_of(did).instantiate_identity().skip_norm_wip();
+                    let ty = tcx.erase_and_anonymize_regions(ty);
+                    if name.starts_with("AH_") {
+                        handles.push((name, ty));
+                    } else if name.starts_with("AC_") {
+                        ctxs.push((name, ty));
+                    }
+                }
+            }
+        }
+        if !handles.is_empty() && !ctxs.is_empty() {
+            if let Some(op) = cx.opaquable {
+                let mut seen: Vec<DefId> = Vec::new();
+                for ldid in items.definitions() {
+                    let did = ldid.to_def_id();
+                    if !matches!(tcx.def_kind(did), DefKind::Impl { .. }) {
+                        continue;
+                    }
+                    let Some(tr) = tcx.impl_opt_trait_ref(did) else { continue };
+                    if tr.skip_binder().def_id != op {
+                        continue;
+                    }
+                    let self_ty = tcx.type_of(did).instantiate_identity().skip_norm_wip();
+                    let ty::Adt(adt, _) = self_ty.kind() else { continue };
+                    if !adt.did().is_local() || seen.contains(&adt.did()) {
+                        continue;
+                    }
+                    seen.push(adt.did());
+                    let g = tcx.generics_of(adt.did());
+                    let tparams: Vec<_> = g.own_params.iter().filter(|p| matches!(p.kind, ty::GenericParamDefKind::Type { .. })).collect();
+                    if tparams.len() != 2 || g.own_params.iter().any(|p| matches!(p.kind, ty::GenericParamDefKind::Const { .. })) {
+                        continue;
+                    }
+                    for (hn, hty) in &handles {
+                        for (cn, cty) in &ctxs {
+                            let mut k = 0;
+                            let args = ty::GenericArgs::for_item(tcx, adt.did(), |param, _| match param.kind {
+                                ty::GenericParamDefKind::Lifetime => tcx.lifetimes.re_erased.into(),
+                                ty::GenericParamDefKind::Type { .. } => {
+                                    k += 1;
+                                    if k == 1 { (*hty).into() } else { (*cty).into() }
+                                }
+                                ty::GenericParamDefKind::Const { .. } => unreachable!(),
+                            });
+                            let ty = Ty::new_adt(tcx, *adt, args);
+                            let name = format!("AUTO_{}_{}_{}", tcx.item_name(adt.did()), &hn[3..], &cn[3..]);
+                            lines.push(cx.probe_ty_fact(ty, &name, &path_s(tcx, adt.did())));
+                            n_probe += 1;
+                        }
+                    }
+                }
+            }
+        }
+    }
     let head = obj(vec![
         ("k", q("meta")),
         ("tag", q(tag)),
@@ -594,15 +659,20 @@ impl<'tcx> Cx<'tcx> {
 
     fn probe_fact(&self, did: DefId, path: &str) -> String {
         let tcx = self.tcx;
-        let tenv = TypingEnv::fully_monomorphized();
         let ty0 = tcx.type_of(did).instantiate_identity().skip_norm_wip();
         let ty0 = tcx.erase_and_anonymize_regions(ty0);
-        let mut f = vec![
-            ("k", q("probe")),
-            ("path", q(path)),
-            ("name", q(tcx.item_name(did).as_str())),
-            ("line", span_line(tcx, tcx.def_span(did))),
-        ];
+        let name = tcx.item_name(did).to_string();
+        let mut s = self.probe_ty_fact(ty0, &name, path);
+        // append the source line
+        s.pop();
+        s.push_str(&format!(",\"line\":{}}}", span_line(tcx, tcx.def_span(did))));
+        s
+    }
+
+    fn probe_ty_fact(&self, ty0: Ty<'tcx>, name: &str, path: &str) -> String {
+        let tcx = self.tcx;
+        let tenv = TypingEnv::fully_monomorphized();
+        let mut f = vec![("k", q("probe")), ("path", q(path)), ("name", q(name))];
         if ty0.has_param() {
             f.push(("error", q("generic probe")));
             return obj(f);
